@@ -92,6 +92,26 @@ def gen_long(r):
     return b"p[1-2]" + body
 
 
+def est_hosts(body):
+    """how many hosts a word stands for, roughly: the product over its bracket groups of the sizes of their ranges (numbers read
+    as strtoul does: leading digits)"""
+    import re
+
+    def lead(b):
+        m = re.match(rb"\s*(\d+)", b)
+        return int(m.group(1)) if m else None
+    total = 1
+    for m in re.finditer(rb"\[([^\]]*)\]", body):
+        k = 0
+        for item in m.group(1).split(b","):
+            lo_t, _, hi_t = item.partition(b"-")
+            lo = lead(lo_t)
+            hi = lead(hi_t) if hi_t else lo
+            k += min(hi - lo + 1, 16384) if lo is not None and hi is not None and hi >= lo else 1
+        total *= max(k, 1)
+    return total
+
+
 def run(ctx):
     ctx.gen_params()
     ctx.prove()
@@ -223,9 +243,8 @@ def run(ctx):
                     if pf and wd.startswith(pf):
                         body = wd[len(pf):]
                         break
-                to = eng.run_impl(["targets " + hexs(body)])[0]
-                nh = to.count(",") + 1 if to.startswith("OK") else 0
-                if nh > 20000:
+                nh = est_hosts(body)
+                if nh > 20000 and real.run(["-Q", "-w", body], timeout=30, stdin=b"")[0] != -999:
                     dist["large_expansion_not_timed"] = dist.get("large_expansion_not_timed", 0) + 1
                     continue
                 msg = "pdsh does not terminate on the word"
